@@ -204,7 +204,7 @@ class RFile:
         if not p.buf:
             return b""
         m = min(n, len(p.buf))
-        k = self.pipe.world.chunk(m)
+        k = self.pipe.world.chunk(m, n)
         if k < n:
             s.probe("short-read")
         return p.pop(k)
@@ -373,7 +373,7 @@ class SimSocket:
         if self.rd_shut or not p.buf:
             return b""
         m = min(n, len(p.buf))
-        k = self.world.chunk(m)
+        k = self.world.chunk(m, n)
         if k < n:
             s.probe("short-read")
         return p.pop(k)
